@@ -88,13 +88,23 @@ def load_task(task):
                     r["tumour_content"] = tc[r["sample_id"]]
                 if opt_cols in (2, 3):
                     r["error_rate"] = 0.005
+            annotated = c % 5 in (1, 3)
+            if annotated:
+                # annotation columns the loader does not use, as real variant tables carry them: partly blank, fully
+                # populated, and entirely blank
+                for r in rows:
+                    r["gene"] = "" if rng.random() < 0.4 else "GENE%d" % int(rng.integers(0, 50))
+                    r["variant_cases"] = "case_%s" % r["sample_id"]
+                    r["note"] = ""
+                part.count("tables_with_annotation_columns")
             sep = "\t" if c % 3 else ","
             density = ["beta-binomial", "binomial"][c % 2]
             G = int(rng.choice([11, 21]))
             precision = 200.0
             clustered = c % 6 == 5
             case = {"seed": task["seed"], "shard": task["shard"], "case": c, "classes": classes, "samples": samples,
-                    "sep": "tab" if sep == "\t" else "comma", "optional_columns": opt_cols, "clustered": clustered}
+                    "sep": "tab" if sep == "\t" else "comma", "optional_columns": opt_cols, "clustered": clustered,
+                    "annotation_columns": annotated}
             cluster_file = None
             assign = None
             if clustered:
@@ -212,7 +222,7 @@ def run(ctx):
     quick = ctx.tier == "quick"
     ctx.rule = ("generated tables of 2-8 mutations x 1-3 samples with mutation classes ok / missing in a sample / zero "
                 "major CN in a sample / duplicated / zero everywhere, numeric and string ids, tab or comma, optional "
-                "columns present or absent, with and without a cluster file; 5 random row permutations each; "
+                "columns present or absent, unused annotation columns (partly blank, populated, entirely blank) in two of five tables, with and without a cluster file; 5 random row permutations each; "
                 "distinct = (set of classes present, separator, optional columns, clustering, #samples)")
     ctx.assumptions = ["excluded by the property: a sample keeping no usable row; extra rows in one sample offsetting "
                        "missing rows in another (generators never produce them)",
